@@ -137,6 +137,11 @@ def readLen (cfg : Cfg) (n : Int) (d : Dec) : Res Bytes :=
   else if n.toNat ≤ d.inp.length then .ok (d.inp.take n.toNat) ⟨d.inp.drop n.toNat, d.remain - n.toNat⟩
   else .error
 
+/-- the `int` a length read as uint64 becomes: `toLength(u)` in the bounded decoder (values above
+MaxInt32 fail the bounds check as −1), Go's wrapping `int(u)` before -/
+def lenOfU (cfg : Cfg) (u : Nat) : Int :=
+  if cfg.bounded then (if u > 2147483647 then -1 else (u : Int)) else toI64 u
+
 /-- `makeArray(elemType, n)` guarded (or not) by the bound on `remain` -/
 def allocElems (cfg : Cfg) (n : Int) (d : Dec) : Res Nat :=
   if n < 0 then (if cfg.bounded then .error else .panic)
@@ -158,7 +163,7 @@ def taggedLoop (cfg : Cfg) (lookup : Int → Option (Nat × (Dec → Res Val))) 
     (readUvarint d).bind fun size d =>
     match lookup (toI64 tagID) with
     | some (idx, dec) => (dec d).bind fun v d => taggedLoop cfg lookup n (slots.set idx v) d
-    | none => (readLen cfg (toI64 size) d).bind fun _ d => taggedLoop cfg lookup n slots d
+    | none => (readLen cfg (lenOfU cfg size) d).bind fun _ d => taggedLoop cfg lookup n slots d
 
 mutual
 def zero : Ty → Val
@@ -177,8 +182,8 @@ end
 
 /-- number of iterations of the tagged-field loop: `n := int(d.readUnsignedVarInt())`, `for i := 0; i < n` -/
 def tagCount (cfg : Cfg) (u : Nat) (d : Dec) : Res Nat :=
-  let n := toI64 u
-  if n < 0 then .ok 0 d
+  let n := lenOfU cfg u
+  if n < 0 then (if cfg.bounded then .error else .ok 0 d)
   else if cfg.bounded ∧ n.toNat > d.remain then .error
   else .ok n.toNat d
 
@@ -195,7 +200,7 @@ def decode (cfg : Cfg) : Ty → Dec → Res Val
     if compact then
       (readUvarint d).bind fun n d =>
         if n < 1 then .ok (.str []) d
-        else (readLen cfg (toI64 (n - 1)) d).bind fun bs d => .ok (.str bs) d
+        else (readLen cfg (lenOfU cfg (n - 1)) d).bind fun bs d => .ok (.str bs) d
     else
       (readInt 2 d).bind fun n d =>
         if n < 0 then .ok (.str []) d
@@ -204,7 +209,7 @@ def decode (cfg : Cfg) : Ty → Dec → Res Val
     if compact then
       (readUvarint d).bind fun n d =>
         if n < 1 then .ok (.bytes none) d
-        else (readLen cfg (toI64 (n - 1)) d).bind fun bs d => .ok (.bytes (some bs)) d
+        else (readLen cfg (lenOfU cfg (n - 1)) d).bind fun bs d => .ok (.bytes (some bs)) d
     else
       (readInt 4 d).bind fun n d =>
         if n < 0 then .ok (.bytes none) d
@@ -213,7 +218,7 @@ def decode (cfg : Cfg) : Ty → Dec → Res Val
     if compact then
       (readUvarint d).bind fun n d =>
         if n < 1 then .ok (.arr none) d
-        else (allocElems cfg (toI64 (n - 1)) d).bind fun k d =>
+        else (allocElems cfg (lenOfU cfg (n - 1)) d).bind fun k d =>
           (decodeElems (decode cfg t) (zero t) k d).bind fun vs d => .ok (.arr (some vs)) d
     else
       (readInt 4 d).bind fun n d =>
@@ -273,7 +278,7 @@ def skipHeaderTags (cfg : Cfg) : Nat → Dec → Res Unit
   | n + 1, d =>
     (readUvarint d).bind fun _ d =>
     (readUvarint d).bind fun size d =>
-    (readLen cfg (toI64 size) d).bind fun _ d => skipHeaderTags cfg n d
+    (readLen cfg (lenOfU cfg size) d).bind fun _ d => skipHeaderTags cfg n d
 
 /-- `d.discardAll()`: the rest of the frame is consumed; a short stream is an error -/
 def discardAll (d : Dec) : Res Unit :=
